@@ -155,14 +155,27 @@ def processLine (acc : Acc) (line : String) : Acc :=
         let implOk := outToks.head? == some "ok"
         let implClass := outToks.head?.getD "?"
         let dkv := kvOf deltaToks
-        let implPost := let s := applyMod acc.cur dkv; { s with bank := applyLedger acc.cur.bank dkv }
+        let implFull := let s := applyMod acc.cur dkv; { s with bank := applyLedger acc.cur.bank dkv }
+        -- a real Ethereum transaction: ethermint refunds the unused gas after the hooks ran (fee collector → sender); that
+        -- transfer is not the hook's and is taken out of the observed ledger before comparing and monitoring
+        let opkv := kvOf args
+        let isTx := opkv.has "refund"
+        let refund := natOf (opkv.get "refund")
+        let rto := opkv.get "rto"
+        let fc := acc.env.feeCollector
+        let d := acc.env.denom
+        let implPost : State :=
+          if refund == 0 then implFull
+          else { implFull with bank :=
+                  (implFull.bank.setBal fc d (implFull.bank.get fc d + refund)).setBal rto d (implFull.bank.get rto d - refund) }
         let (modelOk, modelPost, modelRej) :=
           match step acc.env acc.cur op with
           | .ok s' => (true, s', "")
           | .error e => (false, acc.cur, rejName e)
         let comps : List String :=
           (if modelOk != implOk then ["outcome"] else []) ++
-          (if !bankEq modelPost.bank implPost.bank then ["bank"] else []) ++
+          (if isTx then (if !(modelPost.bank.bal.eqv implPost.bank.bal && modelPost.bank.sup.eqv implPost.bank.sup) then ["bank"] else [])
+           else if !bankEq modelPost.bank implPost.bank then ["bank"] else []) ++
           (if !(Spec.csrsEq modelPost implPost && Spec.idxEq modelPost implPost) then ["registry"] else []) ++
           (if !(modelPost.tsBal.eqv implPost.tsBal) then ["turnstile"] else []) ++
           (if modelPost.params != implPost.params || modelPost.turnstile != implPost.turnstile then ["params"] else [])
@@ -181,7 +194,7 @@ def processLine (acc : Acc) (line : String) : Acc :=
                              else modelRej)
                         | .setParams _ _ _ => "setparams-rej-" ++ modelRej
                         | .send _ _ _ _ => "send-rej-" ++ modelRej)
-        let tag := s!"{br}/{if implOk then "ok" else "rej"}/{opMagnitude op}"
+        let tag := s!"{br}{if isTx then "+tx" else ""}/{if implOk then "ok" else "rej"}/{opMagnitude op}"
         let cov : Array String :=
           match op, acc.cur.turnstile with
           | .postTx _ _ _ logs, some ts =>
@@ -193,7 +206,7 @@ def processLine (acc : Acc) (line : String) : Acc :=
                (if comps.contains "bank" then bankDiff modelPost.bank implPost.bank ++ " " else "") ++
                (if comps.contains "registry" then s!"modelCsrs=[{showCsrs modelPost}] implCsrs=[{showCsrs implPost}] modelIdx=[{showIdx modelPost}] implIdx=[{showIdx implPost}] " else "") ++
                (if comps.contains "turnstile" then s!"modelTsb=[{showTsb modelPost}] implTsb=[{showTsb implPost}] " else "")
-        { acc with cur := implPost, out := (acc.out.push l) ++ viol.toArray ++ cov }
+        { acc with cur := implFull, out := (acc.out.push l) ++ viol.toArray ++ cov }
     | _ => { acc with out := acc.out.push "? E malformed" }
   else acc
 
